@@ -167,4 +167,17 @@ theorem unset_credential_admits_nobody (cfg : Cfg) (h : cfg.plainUser = none ∨
   · rw [h] at hu; cases hu
   · rw [h] at hp; cases hp
 
+/-- the names a peer's greeting and commands are compared with are those of the RFCs (23/37: 20-byte zero-padded mechanism
+names NULL, PLAIN, CURVE; READY and ERROR commands with a 1-byte name length; 24/PLAIN: HELLO, WELCOME, ERROR), pinned
+independently of the source — "the mechanism the peer proposed" means the same thing to rzmq as to any ZeroMQ peer -/
+theorem mechanism_and_command_names_are_the_rfc_ones :
+    Gen.mechName_null = [0x4E, 0x55, 0x4C, 0x4C] ++ List.replicate 16 0
+    ∧ Gen.mechName_plain = [0x50, 0x4C, 0x41, 0x49, 0x4E] ++ List.replicate 15 0
+    ∧ Gen.mechName_curve = [0x43, 0x55, 0x52, 0x56, 0x45] ++ List.replicate 15 0
+    ∧ Gen.cmdReady = [5, 0x52, 0x45, 0x41, 0x44, 0x59] ∧ Gen.cmdError = [5, 0x45, 0x52, 0x52, 0x4F, 0x52]
+    ∧ Gen.readyPropsOffset = 6
+    ∧ Gen.plainHello = [0x48, 0x45, 0x4C, 0x4C, 0x4F] ∧ Gen.plainWelcome = [0x57, 0x45, 0x4C, 0x43, 0x4F, 0x4D, 0x45]
+    ∧ Gen.plainError = [0x45, 0x52, 0x52, 0x4F, 0x52] := by
+  decide
+
 end Rzmq.C06
